@@ -91,6 +91,7 @@ type slotKey struct{ id, ts uint32 }
 
 type sim struct {
 	nestedArchive int32 // set while a second archive download runs inside a gap of the first
+	allSpellings  bool  // statistics requests are repeated with every other spelling of the optional parameter
 	forceNegZero  bool  // the next impact round hands out -0 for every device
 	res           *core.Result
 	w             *srv.World
@@ -326,8 +327,11 @@ func refAuthSigningBytes(a glow.EquipmentAuthorization) []byte {
 
 func (s *sim) mkAuth(d *device, signer srv.Key) glow.EquipmentAuthorization {
 	lats := []float64{0, math.Copysign(0, -1), 5e-324, 37.5, -89.999, 0.1, 1.2345678901234567e+2, -179.9999999999999}
+	// the expiration is data for the clients of the protocol: the server accepts, keeps, bans and reloads an
+	// authorization whatever the value is (in the past, at the clock, just ahead of it, maximal)
+	exps := []uint32{1 << 30, 0, s.w.Now, 0xffffffff, s.w.Now + 40, 7}
 	ea := glow.EquipmentAuthorization{ShortID: d.ID, PublicKey: d.K.Pub, Latitude: lats[int(d.ID)%len(lats)] + float64(d.ID)/1024, Longitude: float64(d.ID)*0.37 - 90,
-		Capacity: d.Cap, Debt: uint64(d.ID) * 3, Expiration: 1 << 30, Initialization: d.ID % 97, ProtocolFee: uint64(d.ID) * 11}
+		Capacity: d.Cap, Debt: uint64(d.ID) * 3, Expiration: exps[int(d.ID/3)%len(exps)], Initialization: d.ID % 97, ProtocolFee: uint64(d.ID) * 11}
 	ea.Signature = s.w.Sign(ea.SigningBytes(), signer)
 	return ea
 }
@@ -853,6 +857,22 @@ func (s *sim) stats(kind string, falseNeg bool) {
 		if !refVerify(s.a.Server.Pub, refStatsSigningBytes(*ads), ads.Signature) {
 			s.fail("statistics signature does not verify under the server key over the documented layout ("+kind+")", "c03-signature")
 		}
+		// only the documented spelling insert_false_negatives=true asks for falsified values: every other
+		// value of the parameter (and unknown parameters) is an ordinary request with the ordinary answer
+		spellings := []string{"&insert_false_negatives=1", "&insert_false_negatives=TRUE", "&insert_false_negatives=t", "&insert_false_negatives=True", "&insert_false_negatives=T", "&insert_false_negatives=false", "&insert_false_negatives=", "&other=true"}
+		if !s.allSpellings {
+			spellings = spellings[s.r.Intn(len(spellings)):][:1]
+		}
+		for _, q := range spellings {
+			a2, rr := w.StatsWith(tso, q)
+			s.res.Count("stats.other-parameters")
+			if rr.Panicked {
+				s.fail("statistics request panics the handler ("+q+")", "panic-stats")
+			} else if a2 == nil || srv.CoqStats(*a2) != want || !refVerify(s.a.Server.Pub, refStatsSigningBytes(*a2), a2.Signature) {
+				s.fail("the "+kind+" week requested with "+q+" is not the signed record of the plain request", "c03-parameter-changes-record")
+				break
+			}
+		}
 	} else {
 		// each value is the true one or its negation; small and already negative values are untouched
 		ref := map[string][2016]uint64{}
@@ -943,7 +963,11 @@ func (s *sim) restart(newNow uint32) bool {
 	// expected: the same facts, advanced by the catch-up rotations the new clock requires
 	exp := before
 	k := 0
+	var expWeeks []string // the weeks the catch-up has to archive: the persisted live reports, no impact rates (not persisted)
 	for int64(newNow)-int64(exp.Offset) >= 4000 {
+		ev := exp
+		ev.Impact = nil
+		expWeeks = append(expWeeks, expectedWeek(ev, 0, exp.Offset))
 		exp = rotateView(exp)
 		k++
 	}
@@ -961,6 +985,12 @@ func (s *sim) restart(newNow uint32) bool {
 	for i := range before.History {
 		if i < len(after.History) && srv.CoqStats(before.History[i]) != srv.CoqStats(after.History[i]) {
 			s.fail("an archived week changed across restart", "c04-archive-differs")
+		}
+	}
+	for i, wk := range expWeeks {
+		if j := len(before.History) + i; j < len(after.History) && srv.CoqStats(after.History[j]) != wk {
+			s.fail(fmt.Sprintf("week %d archived by the start-up catch-up differs from the reports accepted for it before the shutdown", after.History[j].TimeslotOffset), "c03-catchup-week-content")
+			break
 		}
 	}
 	for i := len(before.History); i < len(after.History); i++ {
